@@ -28,4 +28,20 @@ TEXT = {
                  "moved mesh. Exploration over thousands of generated meshes/parameter sets; found the bending-normal defect (fixed).",
         "note": "Trusted: the harness gradients and the stated rounding-error model. Terms are reached through the cell_tester friend name declared by the headers.",
     },
+    "C20": {
+        "technique": "rapidcheck property-based testing against a reference model (long-double voxel index, brute-force neighbourhood, multiset of stored objects)",
+        "level": "Boxes whose extent is an exact multiple of the voxel size with points on the max faces/corners are produced by construction "
+                 "in half of the cases, at micro and unit scale, near and far from the origin; every indexed point, every placement, "
+                 "every neighbourhood and the full content are compared with the reference model under ASan. Found the out-of-range voxel "
+                 "for points on the upper boundary (fixed). Exploration, not proof.",
+        "note": "Trusted: the reference model in the harness. Points within 1e-9 voxel of an interior voxel boundary are only required to map to an existing voxel.",
+    },
+    "C03": {
+        "technique": "rapidcheck property-based testing, differential against an independent re-implementation of the integration law, over 4 compile-time configurations and 1..16 threads",
+        "level": "Every live node of every cell is compared after every step with the law recomputed in long double; static cells and dead "
+                 "slots must be bit-unchanged, force accumulators exactly zero, time exactly the float fold of dt; coupled pairs are "
+                 "checked for equal displacement and conserved total momentum. Found that contact model 2 integrated positions with "
+                 "the old momentum (fixed). Exploration.",
+        "note": "Trusted: the harness re-implementation. Non-mutual couplings (which the contact models can leave behind) are outside the quantifier.",
+    },
 }
